@@ -4,8 +4,12 @@ package statesync
 
 // C14 correspondence harness, provenance part: the real lightClientStateProvider over a real
 // light.Client (mock primary + witness serving one honestly signed chain, deterministic keys)
-// and a JSON-RPC stub answering consensus_params.  AppHash / Commit / State are compared with the
-// projections of the verified light blocks (coq/C14/Model.v lc_apphash, lc_commit, lc_state).
+// and a JSON-RPC stub answering consensus_params PER REQUESTED HEIGHT.  The chains change their
+// consensus params (ConsensusHash), validator set, app version, app hash and results hash from
+// height to height (chain A: at every height; chain B: at seeded heights), so that a field taken
+// from the wrong one of the blocks h, h+1, h+2 is visible.  AppHash / Commit / State are compared
+// with the specification coq/C14/Spec.v (clauses 14, 15, 17) and with the model (Model.v
+// lc_apphash, lc_commit, lc_state over lrpc_params).
 // Header times are taken relative to time.Now() (the provider calls time.Now() itself), so the
 // hashes in the cases differ from run to run; the structure of the cases does not.
 
@@ -16,7 +20,8 @@ import (
 	"io"
 	"net/http"
 	"net/http/httptest"
-	"sort"
+	"os"
+	"strings"
 	"testing"
 	"time"
 
@@ -35,6 +40,7 @@ import (
 	tmversion "github.com/tendermint/tendermint/proto/tendermint/version"
 	ctypes "github.com/tendermint/tendermint/rpc/core/types"
 	rpctypes "github.com/tendermint/tendermint/rpc/jsonrpc/types"
+	sm "github.com/tendermint/tendermint/state"
 	"github.com/tendermint/tendermint/types"
 	"github.com/tendermint/tendermint/version"
 )
@@ -46,20 +52,93 @@ type c14Block struct {
 	vals *types.ValidatorSet
 }
 
-// an honestly signed chain of n blocks; the validator set changes at height 4, the app version
-// at height 3
-func c14MakeChain(n int, params tmproto.ConsensusParams, t0 time.Time) map[int64]c14Block {
+// what varies along a chain; index = height, entries 1..top+1 (the validator set of top+1 is the
+// NextValidatorsHash of top)
+type c14ChainSpec struct {
+	top      int
+	maxBytes []int64  // ConsensusParams.Block.MaxBytes in force at the height
+	power0   []int64  // voting power of validator 0
+	third    []bool   // a third validator is in the set
+	appv     []uint64 // Header.Version.App
+	appHash  [][]byte // Header.AppHash (may be empty)
+}
+
+func (c c14ChainSpec) params(h int64) tmproto.ConsensusParams {
+	p := *types.DefaultConsensusParams()
+	p.Block.MaxBytes = c.maxBytes[h]
+	return p
+}
+
+func (c c14ChainSpec) String() string {
+	var sb strings.Builder
+	for h := 1; h <= c.top; h++ {
+		fmt.Fprintf(&sb, " h%d:{Block.MaxBytes:%d power(val0):%d third:%v App:%d AppHash:%x}", h, c.maxBytes[h], c.power0[h], c.third[h], c.appv[h], c.appHash[h])
+	}
+	return sb.String()
+}
+
+// chain A: everything differs between any two adjacent heights; header 4 has an empty AppHash
+func c14ChainA(top int) c14ChainSpec {
+	c := c14ChainSpec{top: top}
+	for h := 0; h <= top+1; h++ {
+		c.maxBytes = append(c.maxBytes, int64(1000000+1000*h))
+		c.power0 = append(c.power0, int64(10+h))
+		c.third = append(c.third, h%2 == 0)
+		c.appv = append(c.appv, uint64(h))
+		ah := []byte{0xa0, byte(h)}
+		if h == 4 {
+			ah = nil
+		}
+		c.appHash = append(c.appHash, ah)
+	}
+	return c
+}
+
+// chain B: each quantity changes at a height with probability 1/2
+func c14ChainB(top int, r *vg.Rand) c14ChainSpec {
+	c := c14ChainSpec{top: top}
+	mb, pw, th, av := int64(2000000), int64(10), false, uint64(1)
+	for h := 0; h <= top+1; h++ {
+		if r.Bool() {
+			mb += int64(1 + r.Intn(500))
+		}
+		if r.Bool() {
+			pw += int64(1 + r.Intn(3))
+		}
+		if r.Chance(30) {
+			th = !th
+		}
+		if r.Bool() {
+			av++
+		}
+		ah := []byte{0xb0, byte(h), byte(r.Intn(256))}
+		if r.Chance(20) {
+			ah = nil
+		}
+		c.maxBytes, c.power0, c.third, c.appv, c.appHash = append(c.maxBytes, mb), append(c.power0, pw), append(c.third, th), append(c.appv, av), append(c.appHash, ah)
+	}
+	return c
+}
+
+func c14MakeChain(c c14ChainSpec, t0 time.Time) map[int64]c14Block {
 	pvs := []types.MockPV{
 		types.NewMockPVWithParams(ed25519.GenPrivKeyFromSecret([]byte("c14-val-0")), false, false),
 		types.NewMockPVWithParams(ed25519.GenPrivKeyFromSecret([]byte("c14-val-1")), false, false),
+		types.NewMockPVWithParams(ed25519.GenPrivKeyFromSecret([]byte("c14-val-2")), false, false),
 	}
 	valsAt := func(h int64) *types.ValidatorSet {
 		var vs []*types.Validator
 		for i, pv := range pvs {
 			pk, _ := pv.GetPubKey()
 			power := int64(10)
-			if i == 0 && h >= 4 {
-				power = 15
+			if i == 0 {
+				power = c.power0[h]
+			}
+			if i == 2 {
+				if !c.third[h] {
+					continue
+				}
+				power = 4
 			}
 			vs = append(vs, types.NewValidator(pk, power))
 		}
@@ -67,23 +146,19 @@ func c14MakeChain(n int, params tmproto.ConsensusParams, t0 time.Time) map[int64
 	}
 	chain := map[int64]c14Block{}
 	lastID := types.BlockID{}
-	for h := int64(1); h <= int64(n); h++ {
+	for h := int64(1); h <= int64(c.top); h++ {
 		vals := valsAt(h)
-		appv := uint64(1)
-		if h >= 3 {
-			appv = 2
-		}
 		hdr := &types.Header{
-			Version:            tmversion.Consensus{Block: version.BlockProtocol, App: appv},
+			Version:            tmversion.Consensus{Block: version.BlockProtocol, App: c.appv[h]},
 			ChainID:            c14Chain,
 			Height:             h,
 			Time:               t0.Add(time.Duration(h) * time.Second),
 			LastBlockID:        lastID,
 			ValidatorsHash:     vals.Hash(),
 			NextValidatorsHash: valsAt(h + 1).Hash(),
-			ConsensusHash:      types.HashConsensusParams(params),
-			AppHash:            []byte{0xa0, byte(h)},
-			LastResultsHash:    tmhash.Sum([]byte{0xd0, byte(h)}),
+			ConsensusHash:      types.HashConsensusParams(c.params(h)),
+			AppHash:            c.appHash[h],
+			LastResultsHash:    tmhash.Sum([]byte{0xd0, byte(h), byte(c.maxBytes[h])}),
 			ProposerAddress:    vals.Validators[0].Address,
 		}
 		bid := types.BlockID{Hash: hdr.Hash(), PartSetHeader: types.PartSetHeader{Total: 1, Hash: tmhash.Sum([]byte{0xe0, byte(h)})}}
@@ -111,34 +186,89 @@ func c14MakeChain(n int, params tmproto.ConsensusParams, t0 time.Time) map[int64
 func c14LB(b c14Block) string {
 	h := b.sh.Header
 	return vg.Tup(vg.Z(h.Height), vg.Z(h.Time.UnixNano()), vg.Z(int64(h.Version.Block)), vg.Z(int64(h.Version.App)),
-		vg.Hx(h.AppHash), vg.Hx(h.LastResultsHash), vg.Hx(b.sh.Commit.BlockID.Hash), vg.Hx(b.sh.Commit.Hash()), vg.Hx(b.vals.Hash()))
+		vg.Hx(h.AppHash), vg.Hx(h.LastResultsHash), vg.Hx(b.sh.Commit.BlockID.Hash), vg.Hx(b.sh.Commit.Hash()), vg.Hx(b.vals.Hash()),
+		vg.Hx(h.ConsensusHash))
+}
+
+// The consensus_params stub.  Modes (what it answers to a request for height req):
+//
+//	0 honest: {BlockHeight: req, params in force at req}
+//	1 params that are nobody's (MaxBytes 12345) labelled req            -> hash check must fail
+//	2 an RPC error
+//	3 the params of an adjacent height labelled req                     -> fails iff they differ
+//	4 label 0                                                           -> refused
+//	5 params ValidateConsensusParams refuses (MaxBytes 0) labelled req  -> refused
+//	6 the params of req labelled with an adjacent height                -> fails iff they differ
+//	7 label beyond the chain (the light client cannot verify it)        -> error
+//	8 LYING LABEL: the genuine params of an adjacent height under that height's label: light/rpc
+//	  verifies them against the header of the LABEL and relays them (finding F66; only generated
+//	  with VERIF_C14_F66=1)
+const c14StubModes = 8
+
+func c14Adjacent(c c14ChainSpec, req int64, up bool) int64 {
+	if (up && req+1 <= int64(c.top)) || req-1 < 1 {
+		return req + 1
+	}
+	return req - 1
+}
+
+// ok=false: transport error; otherwise the label and the params served
+func c14StubAnswer(c c14ChainSpec, mode int, up bool, req int64) (label int64, params tmproto.ConsensusParams, ok bool) {
+	if req < 1 || req > int64(c.top) {
+		return 0, params, false
+	}
+	switch mode {
+	case 0:
+		return req, c.params(req), true
+	case 1:
+		p := c.params(req)
+		p.Block.MaxBytes = 12345
+		return req, p, true
+	case 3:
+		return req, c.params(c14Adjacent(c, req, up)), true
+	case 4:
+		return 0, c.params(req), true
+	case 5:
+		p := c.params(req)
+		p.Block.MaxBytes = 0
+		return req, p, true
+	case 6:
+		return c14Adjacent(c, req, up), c.params(req), true
+	case 7:
+		return int64(c.top) + 3, c.params(req), true
+	case 8:
+		a := c14Adjacent(c, req, up)
+		return a, c.params(a), true
+	}
+	return 0, params, false
 }
 
 func TestVerifC14Prov(t *testing.T) {
 	cs := vg.NewCases("C14", "c14_prov", "TM.C14.Exec")
 	root := vg.NewRand(vg.Seed())
-	params := *types.DefaultConsensusParams()
-	other := params
-	other.Block.MaxBytes = 12345
 	t0 := time.Now().Add(-time.Hour)
 	const top = 9
-	chain := c14MakeChain(top, params, t0)
-	headers := map[int64]*types.SignedHeader{}
-	vals := map[int64]*types.ValidatorSet{}
-	var hs []int64
-	for h, b := range chain {
-		headers[h], vals[h] = b.sh, b.vals
-		hs = append(hs, h)
+	specs := []c14ChainSpec{c14ChainA(top), c14ChainB(top, root.Fork(777001)), c14ChainB(top, root.Fork(777002))}
+	type built struct {
+		headers map[int64]*types.SignedHeader
+		vals    map[int64]*types.ValidatorSet
+		lbTerms []string
 	}
-	sort.Slice(hs, func(i, j int) bool { return hs[i] < hs[j] })
-	var lbTerms []string
-	for _, h := range hs {
-		lbTerms = append(lbTerms, c14LB(chain[h]))
+	var chains []built
+	for _, spec := range specs {
+		chain := c14MakeChain(spec, t0)
+		b := built{headers: map[int64]*types.SignedHeader{}, vals: map[int64]*types.ValidatorSet{}}
+		for h := int64(1); h <= top; h++ {
+			b.headers[h], b.vals[h] = chain[h].sh, chain[h].vals
+			b.lbTerms = append(b.lbTerms, c14LB(chain[h]))
+		}
+		chains = append(chains, b)
 	}
 
-	// what the RPC stub answers: 0 the right params, 1 other params (hash check must fail),
-	// 2 an RPC error
-	rpcMode := 0
+	// the stub serves the chain / mode of the current case
+	var curSpec c14ChainSpec
+	stubMode, stubUp := 0, false
+	var asked []int64
 	srv := httptest.NewServer(http.HandlerFunc(func(w http.ResponseWriter, r *http.Request) {
 		body, _ := io.ReadAll(r.Body)
 		var req rpctypes.RPCRequest
@@ -149,14 +279,13 @@ func TestVerifC14Prov(t *testing.T) {
 		_ = json.Unmarshal(req.Params, &hp)
 		var height int64
 		fmt.Sscanf(hp.Height, "%d", &height)
+		asked = append(asked, height)
 		var resp rpctypes.RPCResponse
-		switch {
-		case req.Method != "consensus_params" || rpcMode == 2:
+		label, params, ok := c14StubAnswer(curSpec, stubMode, stubUp, height)
+		if req.Method != "consensus_params" || !ok {
 			resp = rpctypes.RPCInternalError(req.ID, fmt.Errorf("scripted failure"))
-		case rpcMode == 1:
-			resp = rpctypes.NewRPCSuccessResponse(req.ID, &ctypes.ResultConsensusParams{BlockHeight: height, ConsensusParams: other})
-		default:
-			resp = rpctypes.NewRPCSuccessResponse(req.ID, &ctypes.ResultConsensusParams{BlockHeight: height, ConsensusParams: params})
+		} else {
+			resp = rpctypes.NewRPCSuccessResponse(req.ID, &ctypes.ResultConsensusParams{BlockHeight: label, ConsensusParams: params})
 		}
 		js, _ := json.Marshal(resp)
 		w.Header().Set("Content-Type", "application/json")
@@ -164,37 +293,85 @@ func TestVerifC14Prov(t *testing.T) {
 	}))
 	defer srv.Close()
 
-	n := vg.Scale(24, 400)
-	for k := 0; k < n; k++ {
+	type cfg struct {
+		chain, mode int
+		up          bool
+		h           uint64
+		initial     int64
+		trust       int64
+	}
+	var cfgs []cfg
+	// every height of chain A and of one seeded chain against the honest stub
+	for h := uint64(1); h <= top; h++ {
+		cfgs = append(cfgs, cfg{chain: 0, h: h, initial: []int64{0, 1, 5}[h%3], trust: 1})
+	}
+	for h := uint64(1); h <= top; h++ {
+		cfgs = append(cfgs, cfg{chain: 1, h: h, initial: []int64{0, 1, 5}[(h+1)%3], trust: 1})
+	}
+	// heights the light client cannot vouch for
+	for _, h := range []uint64{0, 1<<63 - 3, 1<<63 - 2, 1<<63 - 1, 1 << 63, 1<<64 - 2, 1<<64 - 1} {
+		cfgs = append(cfgs, cfg{chain: 0, h: h, trust: 1})
+	}
+	// every stub mode on chain A at a height where all three blocks exist
+	for m := 1; m < c14StubModes; m++ {
+		cfgs = append(cfgs, cfg{chain: 0, mode: m, up: m%2 == 0, h: uint64(2 + m%5), trust: 1})
+	}
+	n := vg.Scale(56, 600)
+	for k := len(cfgs); k < n; k++ {
+		r := root.Fork(uint64(k))
+		c := cfg{chain: r.Intn(len(specs)), h: uint64(1 + r.Intn(top)), initial: []int64{0, 1, 5}[r.Intn(3)], up: r.Bool(),
+			trust: []int64{1, 1, 4, top}[r.Intn(4)]}
+		if r.Chance(60) {
+			c.mode = r.Intn(c14StubModes)
+		}
+		cfgs = append(cfgs, c)
+	}
+	if os.Getenv("VERIF_C14_F66") == "1" {
+		for _, h := range []uint64{2, 5, 7} {
+			cfgs = append(cfgs, cfg{chain: 0, mode: 8, up: h == 5, h: h, trust: 1})
+		}
+		cfgs = append(cfgs, cfg{chain: 1, mode: 8, up: true, h: 3, trust: 1}, cfg{chain: 2, mode: 8, h: 4, trust: 4})
+	}
+
+	for _, c := range cfgs {
 		id := cs.NextID()
 		if !cs.Want(id) {
 			continue
 		}
-		r := root.Fork(uint64(k))
-		primary := mockp.New(c14Chain, headers, vals)
+		spec, ch := specs[c.chain], chains[c.chain]
+		primary := mockp.New(c14Chain, ch.headers, ch.vals)
 		witness := primary.Copy(c14Chain)
 		lc, err := light.NewClient(context.Background(), c14Chain,
-			light.TrustOptions{Period: 10 * time.Hour, Height: 1, Hash: headers[1].Hash()},
+			light.TrustOptions{Period: 10 * time.Hour, Height: c.trust, Hash: ch.headers[c.trust].Hash()},
 			primary, []lightprovider.Provider{witness}, lightdb.New(dbm.NewMemDB(), ""), light.Logger(log.NewNopLogger()))
 		if err != nil {
 			t.Fatal(err)
 		}
-		initial := []int64{0, 1, 5}[r.Intn(3)]
 		sp := &lightClientStateProvider{
 			lc:            lc,
 			version:       tmstate.Version{Consensus: tmversion.Consensus{Block: 1, App: 77}, Software: "x"},
-			initialHeight: initial,
+			initialHeight: c.initial,
 			providers:     map[lightprovider.Provider]string{primary: srv.URL},
 		}
-		h := uint64(1 + k%top) // top-1 and top lack h+2 / h+1
-		rpcMode = 0
-		if k >= top {
-			rpcMode = r.Intn(3)
-		}
+		curSpec, stubMode, stubUp, asked = spec, c.mode, c.up, nil
+		h := c.h
 		ctx := context.Background()
-		ah, errA := sp.AppHash(ctx, h)
-		cm, errC := sp.Commit(ctx, h)
-		st, errS := sp.State(ctx, h)
+		var (
+			ah               []byte
+			cm               *types.Commit
+			st               sm.State
+			errA, errC, errS error
+		)
+		func() {
+			defer func() {
+				if p := recover(); p != nil {
+					errA, errC, errS = fmt.Errorf("panic: %v", p), fmt.Errorf("panic: %v", p), fmt.Errorf("panic: %v", p)
+				}
+			}()
+			ah, errA = sp.AppHash(ctx, h)
+			cm, errC = sp.Commit(ctx, h)
+			st, errS = sp.State(ctx, h)
+		}()
 		code := func(e error) int64 {
 			if e != nil {
 				return 1
@@ -207,24 +384,37 @@ func TestVerifC14Prov(t *testing.T) {
 		}
 		stTerm := vg.Tup("0", "0", "0", "0", "0", `""`, `""`, `""`, `""`, `""`, `""`, "0", `""`, "0")
 		stDescr := "error"
+		chainID := ""
 		if errS == nil {
+			chainID = st.ChainID
 			stTerm = vg.Tup(vg.Z(st.InitialHeight), vg.Z(int64(st.Version.Consensus.Block)), vg.Z(int64(st.Version.Consensus.App)),
 				vg.Z(st.LastBlockHeight), vg.Z(st.LastBlockTime.UnixNano()), vg.Hx(st.LastBlockID.Hash), vg.Hx(st.AppHash),
 				vg.Hx(st.LastResultsHash), vg.Hx(st.LastValidators.Hash()), vg.Hx(st.Validators.Hash()), vg.Hx(st.NextValidators.Hash()),
 				vg.Z(st.LastHeightValidatorsChanged), vg.Hx(types.HashConsensusParams(st.ConsensusParams)), vg.Z(st.LastHeightConsensusParamsChanged))
-			stDescr = fmt.Sprintf("{InitialHeight:%d App:%d LastBlockHeight:%d AppHash:%x LastHeightValidatorsChanged:%d ...}",
-				st.InitialHeight, st.Version.Consensus.App, st.LastBlockHeight, st.AppHash, st.LastHeightValidatorsChanged)
+			stDescr = fmt.Sprintf("{ChainID:%s InitialHeight:%d Version.Consensus:{Block:%d App:%d} LastBlockHeight:%d LastBlockID:%X AppHash:%x LastResultsHash:%X LastValidators:%X Validators:%X NextValidators:%X LastHeightValidatorsChanged:%d ConsensusParams.Block.MaxBytes:%d LastHeightConsensusParamsChanged:%d}",
+				st.ChainID, st.InitialHeight, st.Version.Consensus.Block, st.Version.Consensus.App, st.LastBlockHeight, st.LastBlockID.Hash, st.AppHash,
+				st.LastResultsHash, st.LastValidators.Hash(), st.Validators.Hash(), st.NextValidators.Hash(), st.LastHeightValidatorsChanged,
+				st.ConsensusParams.Block.MaxBytes, st.LastHeightConsensusParamsChanged)
 		}
-		ptrm := "None"
-		switch rpcMode {
-		case 0:
-			ptrm = vg.Opt(true, vg.Hx(types.HashConsensusParams(params)))
+		// the stub as a table: requested height -> answer
+		var rpcTerms []string
+		for req := int64(1); req <= top; req++ {
+			label, params, ok := c14StubAnswer(spec, c.mode, c.up, req)
+			if ok && types.ValidateConsensusParams(params) != nil {
+				ok = false
+			}
+			ans := "None"
+			if ok {
+				ans = vg.Opt(true, vg.Tup(vg.Z(label), vg.Hx(types.HashConsensusParams(params))))
+			}
+			rpcTerms = append(rpcTerms, vg.Tup(vg.Z(req), ans))
 		}
-		term := vg.App("CProv", vg.L(lbTerms), ptrm, vg.Z(initial), vg.Z(int64(h)),
+		term := vg.App("CProv", vg.L(ch.lbTerms), vg.L(rpcTerms), vg.Z(c.initial), c14U(h),
+			vg.Tup(vg.Hx([]byte(chainID)), vg.Hx([]byte(c14Chain))),
 			vg.Tup(vg.Z(code(errA)), vg.Hx(ah)), vg.Tup(vg.Z(code(errC)), vg.Hx(cmHash)), vg.Tup(vg.Z(code(errS)), stTerm))
-		cs.Add(id, fmt.Sprintf("prov-rpc%d", rpcMode), errS == nil, term,
-			fmt.Sprintf("honest chain of %d blocks (validator set changes at 4, app version at 3), trusted height 1, initialHeight %d, consensus_params stub mode %d (0 right, 1 wrong params, 2 error): AppHash(%d)=(%x,%v) Commit(%d)=(%x,%v) State(%d)=%s err=%v",
-				top, initial, rpcMode, h, ah, errA, h, cmHash, errC, h, stDescr, errS))
+		cs.Add(id, fmt.Sprintf("prov-chain%d-rpc%d", c.chain, c.mode), errS == nil, term,
+			fmt.Sprintf("honest chain of %d blocks, light client trusted at height %d:%s; initialHeight %d; consensus_params stub mode %d (0 honest, 1 foreign params, 2 error, 3 params of the adjacent height (up=%v) labelled as asked, 4 label 0, 5 invalid params, 6 params as asked under the adjacent label, 7 label %d, 8 adjacent height's params under its own label), asked for heights %v: AppHash(%d)=(%x,%v) Commit(%d)=(%x,%v) State(%d)=%s err=%v",
+				top, c.trust, spec, c.initial, c.mode, c.up, top+3, asked, h, ah, errA, h, cmHash, errC, h, stDescr, errS))
 	}
 	if err := cs.Write(); err != nil {
 		t.Fatal(err)
